@@ -42,9 +42,16 @@ impl ProtoFmt for std::net::SocketAddr {
 
 /// Equivalent of `time::Duration::new()`, which returns an error instead of panicking on overflow.
 fn duration_from_parts(seconds: i64, nanos: i32) -> anyhow::Result<time::Duration> {
-    time::Duration::seconds(seconds)
+    let d = time::Duration::seconds(seconds)
         .checked_add(time::Duration::nanoseconds(nanos.into()))
-        .context("duration overflow")
+        .context("duration overflow")?;
+    // `build()` encodes a negative sub-second part by borrowing a whole second,
+    // so a value below `i64::MIN` seconds cannot be encoded back.
+    anyhow::ensure!(
+        d.whole_seconds() > i64::MIN || d.subsec_nanoseconds() >= 0,
+        "duration overflow"
+    );
+    Ok(d)
 }
 
 impl ProtoFmt for time::Utc {
